@@ -518,6 +518,13 @@ func TestC02(t *testing.T) {
 			ntx := len(l.Expected(start, su))
 			for i, n := 0, rapid.IntRange(1, 2).Draw(rt, "retries"); i < n; i++ {
 				c.Attempts = append(c.Attempts, AttemptSpec{Fault: drawFault(rt, []string{"handler_err", "handler_err", "fin", "eof", "cancel_in"}, len(payloads)+1, ntx), Pacing: rapid.IntRange(0, 1).Draw(rt, "pacing")})
+				if i > 0 && rapid.IntRange(0, 2).Draw(rt, "seek") == 0 {
+					c.Attempts[i].Seek = rapid.IntRange(1, 4).Draw(rt, "seek_to")
+				}
+			}
+			if rapid.IntRange(0, 2).Draw(rt, "seek_last") == 0 {
+				// the caller repositions before the final, fault-free attempt
+				c.FinalSeek = rapid.IntRange(1, 4).Draw(rt, "seek_last_to")
 			}
 			journal("C02", "c04", c)
 			nt, err := checkC04(c)
